@@ -101,11 +101,12 @@ def run(scn, stats):
 
 
 CFG = gen.cfg(items=0.12, retry=0.15, retry_cmd=True, p_loop=0.2)
-FLAGS = {"pause": 2, "cancel": 1, "pending": 1}
+FLAGS = {"pause": 1, "pending": 1}
+CONTROLS = {"pause": 2, "pause2": 1, "resume": 1, "cancel": 1}
 
 
 def strategy(tier):
-    return gen.scenario(CFG, flags=FLAGS, max_choices=60)
+    return gen.scenario(CFG, flags=FLAGS, max_choices=60, controls=CONTROLS)
 
 
 PARTS = [Part("status-invariant", run, strategy, {"quick": 2400, "thorough": 60000}, rule=RULE)]
